@@ -69,7 +69,7 @@ func (f *Fosite) authorizeRequestParametersFromOpenIDConnectRequest(ctx context.
 		hc := f.Config.GetHTTPClient(ctx)
 		response, err := hc.Get(location)
 		if err != nil {
-			return errorsx.WithStack(ErrInvalidRequestURI.WithHintf("Unable to fetch OpenID Connect request parameters from 'request_uri' because: %s.", err.Error()).WithWrap(err).WithDebug(err.Error()))
+			return errorsx.WithStack(ErrInvalidRequestURI.WithHint("Unable to fetch OpenID Connect request parameters from 'request_uri'.").WithWrap(err).WithDebug(err.Error()))
 		}
 		defer response.Body.Close()
 
@@ -79,7 +79,7 @@ func (f *Fosite) authorizeRequestParametersFromOpenIDConnectRequest(ctx context.
 
 		body, err := io.ReadAll(response.Body)
 		if err != nil {
-			return errorsx.WithStack(ErrInvalidRequestURI.WithHintf("Unable to fetch OpenID Connect request parameters from 'request_uri' because body parsing failed with: %s.", err).WithWrap(err).WithDebug(err.Error()))
+			return errorsx.WithStack(ErrInvalidRequestURI.WithHint("Unable to fetch OpenID Connect request parameters from 'request_uri' because the response body could not be read.").WithWrap(err).WithDebug(err.Error()))
 		}
 
 		assertion = string(body)
